@@ -36,6 +36,9 @@ func init() {
 			if c17ChildEnv != nil {
 				c17ChildEnv.Close()
 			}
+			if c17ChildTopo != nil {
+				c17ChildTopo.Close()
+			}
 			for _, d := range c17Abandoned {
 				_ = os.RemoveAll(d)
 			}
@@ -72,7 +75,11 @@ func c17RunGuarded(c c17Case) (c17Result, *c17Hang) {
 	if hang.Env != nil {
 		hang.Env.abandon()
 	}
-	c17ChildEnv = nil
+	if hang.Env != nil && hang.Env.topo != nil {
+		c17ChildTopo = nil // the registry the case ran on; the single default repository is not concerned
+	} else {
+		c17ChildEnv = nil
+	}
 	return c17Result{}, hang
 }
 
@@ -127,6 +134,30 @@ func c17Isolate(victim c17Case, h *c17Hang, res *c17Result) {
 
 func c17RunCaseInner(c c17Case, e *c17Env, g *c17Guard) c17Out {
 	res := c17Result{Sig: c17CaseSig(c)}
+	if c.Topo != "" {
+		// a case addressed to one repository of a registry (c17_topo.go); the single default repository stays as it is
+		g.Stage("building the served registry %s", c.Topo)
+		t, err := c17TopoFor(c)
+		if err != nil {
+			res.Inconclusive = "cannot build the served registry: " + err.Error()
+			return c17Out{res, e}
+		}
+		v := t.views[c.Repo]
+		v.g = g
+		g.SetEnv(v)
+		g.Publish(&res, v.suspects)
+		start := int64(0)
+		for _, o := range t.views {
+			start += o.requests()
+		}
+		g.Stage("case %s", res.Sig)
+		t.run(c, v, &res)
+		for _, o := range t.views {
+			start -= o.requests()
+		}
+		res.Requests += int(-start)
+		return c17Out{res, e}
+	}
 	if e == nil {
 		g.Stage("building the served repository")
 		env, err := c17BuildEnv(c.Seed)
@@ -216,7 +247,8 @@ func c17PNG(rnd int64) []byte {
 
 func (e *c17Env) runUpload(c c17Case, res *c17Result) {
 	before := e.snap
-	repo, field, content := gqlDefaultRepoName, "uploadfile", c17PNG(c.Rnd)
+	repo, field, content := e.repoName, "uploadfile", c17PNG(c.Rnd)
+	direct := false // the handler is called without the router, its route variable "repo" set by hand
 	switch c.Variant {
 	case "text":
 		content = []byte(fmt.Sprintf("plain text, not an image %d", c.Rnd))
@@ -226,9 +258,30 @@ func (e *c17Env) runUpload(c c17Case, res *c17Result) {
 		field = "file"
 	case "empty":
 		content = nil
+	case "empty-name":
+		repo = "" // POST /upload/ : the route /upload/{repo} does not match
+	case "default-name":
+		repo = gqlDefaultRepoName // the default repository's name, whether or not a default repository is served
+	case "no-name":
+		repo, direct = "", true // route variable "" = "the default one" (api/http): exists iff exactly one repository is served
 	}
-	e.g.Inflight(fmt.Sprintf("[%s] POST /upload/%s (%s)", who(c.Auth), repo, c.Variant))
-	status, body, panicked := e.h.Upload(c.Auth, repo, field, content)
+	// does the request designate this repository (the only one it may then change)?
+	addressed := repo == e.repoName
+	if direct {
+		addressed = e.nServed() == 1
+	}
+	wellFormed := addressed && (c.Variant == "png" || c.Variant == "default-name" || c.Variant == "no-name")
+	var status int
+	var body, panicked string
+	if direct {
+		res.Request = fmt.Sprintf("POST to the upload handler with route variable repo=%q, multipart field %q, %d bytes (%s)", repo, field, len(content), c.Variant)
+		e.g.Inflight(fmt.Sprintf("[%s] %s", who(c.Auth), res.Request))
+		status, body, panicked = e.h.UploadVars(c.Auth, repo, field, content)
+	} else {
+		res.Request = fmt.Sprintf("POST /upload/%s multipart field %q, %d bytes (%s)", repo, field, len(content), c.Variant)
+		e.g.Inflight(fmt.Sprintf("[%s] POST /upload/%s (%s)", who(c.Auth), repo, c.Variant))
+		status, body, panicked = e.h.Upload(c.Auth, repo, field, content)
+	}
 	e.g.Inflight("")
 	after, err := e.snapshot()
 	if err != nil {
@@ -240,15 +293,21 @@ func (e *c17Env) runUpload(c c17Case, res *c17Result) {
 	diff := c17Diff(before, after)
 	res.Nontrivial = true
 	res.Class = "upload"
-	res.Request = fmt.Sprintf("POST /upload/%s multipart field %q, %d bytes (%s)", repo, field, len(content), c.Variant)
+	if e.topo != nil {
+		res.Request += fmt.Sprintf(" [registry %v]", e.served)
+	}
 	res.Response = fmt.Sprintf("%d %s", status, truncateStr(body, 200))
-	res.seen("upload_statuses", fmt.Sprintf("%s/%s=%d", who(c.Auth), c.Variant, status))
+	tag := ""
+	if e.topo != nil {
+		tag = e.topo.def.Name + ":"
+	}
+	res.seen("upload_statuses", fmt.Sprintf("%s%s/%s=%d", tag, who(c.Auth), c.Variant, status))
 	ctx := res.Request + " -> " + res.Response
 	if panicked != "" {
 		res.find("handler-panic:upload", "panic escaped the upload handler: "+panicked+" — "+ctx)
 	}
 	if !c.Auth {
-		if repo == gqlDefaultRepoName && status != 403 {
+		if addressed && status != 403 {
 			res.find("upload-nouser:status", "the upload endpoint must answer 403 without a user — "+ctx)
 		} else if status >= 200 && status < 300 {
 			res.find("upload-nouser:status", "the upload endpoint accepted a request without a user — "+ctx)
@@ -261,6 +320,10 @@ func (e *c17Env) runUpload(c c17Case, res *c17Result) {
 	}
 	if status >= 200 && status < 300 {
 		res.Outcome = "accepted"
+		if !addressed {
+			res.find("upload-user:no-such-repository-accepted", fmt.Sprintf("the upload names no served repository (served: %v) and was accepted — %s", e.served, ctx))
+			return
+		}
 		var dec struct{ Hash string }
 		_ = json.Unmarshal([]byte(body), &dec)
 		data, err := e.rep.Repo.ReadData(repository.Hash(dec.Hash))
@@ -274,15 +337,21 @@ func (e *c17Env) runUpload(c c17Case, res *c17Result) {
 		}
 		// reading it back is a read: works with and without a user
 		for _, a := range []bool{false, true} {
-			st, got, _ := e.h.GitFile(a, gqlDefaultRepoName, dec.Hash)
+			st, got, _ := e.h.GitFile(a, e.repoName, dec.Hash)
 			if st != 200 || !bytes.Equal(got, content) {
-				res.find("gitfile-read:"+who(a), fmt.Sprintf("GET /gitfile/%s/%s answered %d — %s", gqlDefaultRepoName, dec.Hash, st, ctx))
+				res.find("gitfile-read:"+who(a), fmt.Sprintf("GET /gitfile/%s/%s answered %d — %s", e.repoName, dec.Hash, st, ctx))
+			}
+			if direct {
+				st, got, _ := e.h.GitFileVars(a, "", dec.Hash)
+				if st != 200 || !bytes.Equal(got, content) {
+					res.find("gitfile-read:"+who(a), fmt.Sprintf("the download handler with route variables repo=\"\" hash=%s answered %d — %s", dec.Hash, st, ctx))
+				}
 			}
 		}
 		return
 	}
 	res.Outcome = "refused"
-	if c.Variant == "png" {
+	if wellFormed {
 		res.find("upload-user:valid-refused", "a PNG upload by an authenticated user was refused — "+ctx)
 	}
 	if len(diff) > 0 {
@@ -293,6 +362,10 @@ func (e *c17Env) runUpload(c c17Case, res *c17Result) {
 func (e *c17Env) runQuery(c c17Case, res *c17Result) {
 	rng := rand.New(rand.NewSource(c.Rnd))
 	arg := ""
+	if strings.HasPrefix(c.Variant, "norepo-") {
+		e.queryNoRepo(c, e.blobs[rng.Intn(len(e.blobs))], res)
+		return
+	}
 	switch c.Variant {
 	case "gitfile":
 		arg = e.blobs[rng.Intn(len(e.blobs))]
@@ -312,16 +385,16 @@ func (e *c17Env) query(auth bool, variant, arg string, res *c17Result) {
 	var what string
 	switch variant {
 	case "gitfile":
-		res.Request = "GET /gitfile/" + gqlDefaultRepoName + "/" + arg
+		res.Request = "GET /gitfile/" + e.repoName + "/" + arg
 		e.g.Inflight(res.Request)
-		st, _, p := e.h.GitFile(auth, gqlDefaultRepoName, arg)
+		st, _, p := e.h.GitFile(auth, e.repoName, arg)
 		e.g.Inflight("")
 		if st != 200 || p != "" {
 			what = fmt.Sprintf("status %d panic %q", st, p)
 		}
 	case "bug-detail":
 		id := arg
-		doc := fmt.Sprintf(`query { repository { bug(prefix: %q) { id title status author { id name } labels { name } comments { totalCount nodes { id message } } timeline { totalCount } operations { totalCount nodes { id } } actors { nodes { id } } } } }`, id)
+		doc := fmt.Sprintf(`query { `+e.repoSel()+` { bug(prefix: %q) { id title status author { id name } labels { name } comments { totalCount nodes { id message } } timeline { totalCount } operations { totalCount nodes { id } } actors { nodes { id } } } } }`, id)
 		res.Request = doc
 		resp := e.post(auth, doc)
 		if resp.HasErrors() {
@@ -330,7 +403,7 @@ func (e *c17Env) query(auth bool, variant, arg string, res *c17Result) {
 			what = fmt.Sprintf("operations %v, the git data has %v", shortIds(got), shortIds(before.GitOps[id]))
 		}
 	default:
-		doc := `query { repository { name allBugs { totalCount nodes { id title status } } allIdentities { totalCount nodes { id } } validLabels { nodes { name } } userIdentity { id } } }`
+		doc := `query { ` + e.repoSel() + ` { name allBugs { totalCount nodes { id title status } } allIdentities { totalCount nodes { id } } validLabels { nodes { name } } userIdentity { id } } }`
 		res.Request = doc
 		resp := e.post(auth, doc)
 		if resp.HasErrors() {
@@ -587,6 +660,9 @@ func runC17(tier, replay string) int {
 		}
 		c17ScalarProbes(r, reach)
 		cases = c17GenCases(r, schema)
+		// the same requests against every registry shape, each repository addressed in turn (grouped by shape:
+		// a child process builds a registry once and keeps it while the shape stays the same)
+		cases = append(cases, c17TopoCases(r, schema)...)
 		env.Close()
 	}
 	if len(cases) == 0 {
@@ -641,6 +717,12 @@ func runC17(tier, replay string) int {
 		r.Case(res.Sig, res.Nontrivial)
 		r.Count("http_requests", res.Requests)
 		r.Count("cases/"+c.Kind+"/"+who(c.Auth), 1)
+		if c.Topo != "" {
+			r.Count("registry_cases/"+c.Topo, 1)
+			if def := c17TopologyByName(c.Topo); def != nil {
+				r.Seen("repositories_addressed", c.Topo+"/"+def.Repos[c.Repo%len(def.Repos)])
+			}
+		}
 		for k, v := range res.Counts {
 			r.Count(k, v)
 		}
@@ -667,10 +749,11 @@ func runC17(tier, replay string) int {
 	// A case that could not be judged is neither held nor violated. A few are tolerated (and listed in the
 	// evidence); many mean that the run has not observed what it claims to have observed.
 	limit := 2 + len(cases)/200
-	code := r.Finish("every mutation field found by __schema introspection x argument classes by input type (bug prefix full/short/unknown/ambiguous/empty/1-2 characters/over-long/huge/non-hex/blank, combined comment id likewise, Hash lists valid/empty/malformed/unknown/mixed, text clean/unicode/long/multiline/empty/blank/control/CRLF/padded, label lists, missing/null required fields, null/omitted input, GET transport) x {no user, user}, plus upload endpoint, read queries and resolver-level calls with file lists; aftermath cases: a refused or invalid request (every degenerate prefix/id class of every mutation, refused uploads) on a repository of >= 12 bugs (7 sharing the first id character, 2 sharing three), the cache either loaded from its on-disk files (no bug in memory) or warm, followed by probes: anonymous query reading a bug that is not in memory, accepted mutation with user on the shared handler, overview, detail query with user; non-trivial = the request was served and judged by the before/after snapshot oracle; distinct = distinct (kind, mutation, auth, argument class vector)",
+	code := r.Finish("every mutation field found by __schema introspection x argument classes by input type (bug prefix full/short/unknown/ambiguous/empty/1-2 characters/over-long/huge/non-hex/blank, combined comment id likewise, Hash lists valid/empty/malformed/unknown/mixed, text clean/unicode/long/multiline/empty/blank/control/CRLF/padded, label lists, missing/null required fields, null/omitted input, GET transport) x {no user, user}, plus upload endpoint, read queries and resolver-level calls with file lists; aftermath cases: a refused or invalid request (every degenerate prefix/id class of every mutation, refused uploads) on a repository of >= 12 bugs (7 sharing the first id character, 2 sharing three), the cache either loaded from its on-disk files (no bug in memory) or warm, followed by probes: anonymous query reading a bug that is not in memory, accepted mutation with user on the shared handler, overview, detail query with user; registry cases: the handler stack on a MultiRepoCache holding {the default repository | one named | two named | three named | the default and a named one}, each repository addressed in turn by every mutation x repoRef {its name, omitted, null, unknown, empty, the default's internal name} x {no user, user}, uploads (the variants above plus: empty name in the URL, the default's name, the handler's empty route variable) and read queries / downloads, every repository of the registry snapshotted before and after; non-trivial = the request was served and judged by the before/after snapshot oracle; distinct = distinct (kind, mutation, auth, argument class vector)",
 		map[bool]int{true: 1, false: r.Pick(100, 1000)}[replay != ""], []string{
 			"the handler stack is assembled like commands/webui.go (mux router, auth.Middleware iff a user is attached, /graphql, /gitfile, /upload)",
 			"a request is 'valid' only when every argument is in a class the statement clearly allows (existing unambiguous bug, clean text, stored file hashes, effective label change); anything doubtful is only checked for 'error => no change' and 'success => exactly the modelled operations by the user'",
+			"registries: the same user identity is stored in every repository of a registry (a request with a user is valid in each of them); a mutation that names no repository while several are served, or the default repository where there is none, counts as invalid (nothing designates the repository to change); finding keys of registry cases carry the registry class (@one-named-repository, @several-repositories; none for the single default repository)",
 			"the set of object files under .git/objects stands for 'reachable objects' (a refused request has no reason to write any object)",
 			"'queries keep working' / 'each mutation records the change' include: the request is answered at all. A request that never returns counts as a violation only when the goroutine dump shows goroutines parked on a mutex inside git-bug with nothing able to run (twice); elapsed time alone makes the case inconclusive",
 		})
